@@ -6,6 +6,7 @@ import (
 	"encoding/json"
 	"flag"
 	"fmt"
+	"go/constant"
 	"os"
 	"path/filepath"
 	"runtime/pprof"
@@ -56,6 +57,7 @@ func main() {
 		cross     = flag.Bool("crosscheck", false, "answer every deciding query with both solvers")
 		extra     multiFlag
 		cpuprof   = flag.String("cpuprofile", "", "write a CPU profile")
+		consts    = flag.String("consts", "", "comma-separated function names: print the string constants their SSA uses (JSON) and exit")
 	)
 	flag.Var(&extra, "overlayfile", "real=virtual: additional overlay file (repeatable)")
 	flag.Parse()
@@ -155,6 +157,48 @@ func main() {
 		o.Errors = append(o.Errors, "no SSA package for "+*pkgPath)
 		emit()
 		os.Exit(2)
+	}
+
+	if *consts != "" {
+		want := map[string]bool{}
+		for _, n := range strings.Split(*consts, ",") {
+			want[strings.TrimSpace(n)] = true
+		}
+		res := map[string][]string{}
+		for fn := range ssautil.AllFunctions(prog) {
+			if !want[fn.String()] {
+				continue
+			}
+			seen := map[string]bool{}
+			var visit func(f *ssa.Function)
+			visit = func(f *ssa.Function) {
+				for _, b := range f.Blocks {
+					for _, in := range b.Instrs {
+						for _, op := range in.Operands(nil) {
+							if c, ok := (*op).(*ssa.Const); ok && c.Value != nil && c.Value.Kind() == constant.String {
+								s := constant.StringVal(c.Value)
+								if !seen[s] {
+									seen[s] = true
+									res[fn.String()] = append(res[fn.String()], s)
+								}
+							}
+						}
+					}
+				}
+				for _, af := range f.AnonFuncs {
+					visit(af)
+				}
+			}
+			visit(fn)
+			sort.Strings(res[fn.String()])
+		}
+		data, _ := json.MarshalIndent(res, "", " ")
+		if *out == "" {
+			os.Stdout.Write(data)
+		} else {
+			os.WriteFile(*out, data, 0o644)
+		}
+		return
 	}
 
 	if *list {
